@@ -344,6 +344,63 @@ let decode_cmd (f : string list) : cmd =
 
 let show_exit = function X0 -> "0" | X1 -> "1" | X2 -> "2" | X3 -> "3" | XPanic -> "panic"
 
+(* ---- protocol observers ---- *)
+
+let refname_of (s : string) : refname =
+  if s = "B" then RBranch else if s = "S" then RStack
+  else RPatch (str_of_hex (String.sub s 2 (String.length s - 2)))
+
+let show_refname = function
+  | RBranch -> "B" | RStack -> "S" | RPatch nm -> "P:" ^ hex_of_str nm
+
+let refs_of (s : string) : refs =
+  if s = "-" then []
+  else List.map (fun item ->
+      match String.split_on_char '=' item with
+      | [k; v] -> (refname_of k, n_of_decimal v)
+      | _ -> raise Bad_request) (split_char ',' s)
+
+let show_refs (r : refs) : string =
+  let items = List.map (fun (k, v) -> show_refname k ^ "=" ^ string_of_int (int_of_n v)) r in
+  let items = List.sort compare items in
+  if items = [] then "-" else String.concat "," items
+
+let opt_num (s : string) : n option = if s = "_" then None else Some (n_of_decimal s)
+
+(* plan fields: extmods set_head use_iw wt_merge patch_updates new_state new_head old_tree new_tree halt *)
+let plan_of (f : string list) : txplan =
+  let a i = nth f i in
+  let updates =
+    if a 4 = "-" then []
+    else List.map (fun item ->
+        match String.split_on_char '=' item with
+        | [k; "del"] -> (str_of_hex k, None)
+        | [k; v] -> (str_of_hex k, Some (n_of_decimal v))
+        | _ -> raise Bad_request) (split_char ',' (a 4))
+  in
+  { p_extmods = opt_num (a 0); p_set_head = (a 1 = "1"); p_use_iw = (a 2 = "1");
+    p_wt_merge = opt_num (a 3); p_patch_updates = updates; p_new_state = n_of_decimal (a 5);
+    p_new_head = n_of_decimal (a 6); p_old_tree = n_of_decimal (a 7);
+    p_new_tree = n_of_decimal (a 8); p_halt = (a 9 = "1") }
+
+let point_of = function
+  | "stack.loaded" -> PtStackLoaded | "push.before_wt_merge" -> PtPushBeforeWtMerge
+  | "exec.start" -> PtExecStart | "exec.after_external_mods" -> PtAfterExtMods
+  | "exec.before_checkout" -> PtBeforeCheckout | "exec.after_checkout" -> PtAfterCheckout
+  | "crit.enter" -> PtCritEnter | "crit.prev_read" -> PtCritPrevRead
+  | "crit.state_committed" -> PtCritStateCommitted | "crit.before_edit" -> PtCritBeforeEdit
+  | "crit.after_edit" -> PtCritAfterEdit | "exec.after_crit" -> PtAfterCrit
+  | _ -> raise Bad_request
+
+let show_pexit = function E0 -> "0" | E2 -> "2" | E3 -> "3" | E130 -> "130"
+
+let show_pworld (w : pworld) : string =
+  Printf.sprintf "refs=%s wt=%d" (show_refs w.pw_refs) (int_of_n w.pw_wt)
+
+let show_pobs (o : pobs) : string =
+  Printf.sprintf "exit=%s rolledback=%d %s" (show_pexit o.ob_exit)
+    (if o.ob_says_rolled_back then 1 else 0) (show_pworld o.ob_world)
+
 (* ---- request evaluation ---- *)
 
 
@@ -427,6 +484,34 @@ let eval (fields : string list) : string =
       let w', x = step lower_s !cur_world c in
       cur_world := w';
       "exit=" ^ show_exit x ^ " " ^ dump_world w'
+  | "proto" ->
+      (* proto <kind> <point|j|sched> <refs> <wt> <10 plan fields...> *)
+      let kind = nth fields 1 and arg = nth fields 2 in
+      let w0 = { pw_refs = refs_of (nth fields 3); pw_wt = n_of_decimal (nth fields 4) } in
+      let rec drop k l = if k = 0 then l else drop (k - 1) (List.tl l) in
+      let pl = plan_of (drop 5 fields) in
+      (match kind with
+       | "fault" -> show_pobs (fault_at pl w0 (point_of arg))
+       | "sigint" -> show_pobs (sigint_at pl w0 (point_of arg))
+       | "crash" -> show_pworld (crash_at pl w0 (point_of arg))
+       | "world" -> show_pworld (world_at pl w0 (point_of arg))
+       | "crash_edit" -> show_pworld (crash_in_edit pl w0 (nat_of_int (int_of_string arg)))
+       | "edits" ->
+           let es = commit_order (plan_edits pl (world_at pl w0 PtCritBeforeEdit).pw_refs) in
+           String.concat ";" (List.map (function
+             | EUpdate (nm, v, _) -> "update " ^ show_refname nm ^ " " ^ string_of_int (int_of_n v)
+             | EDelete nm -> "delete " ^ show_refname nm) es)
+       | _ -> raise Bad_request)
+  | "sched" ->
+      (* sched <use_loaded> <s1> <s2> <v0> <schedule as string of 0/1> *)
+      let ul = nth fields 1 = "1" in
+      let s1 = n_of_decimal (nth fields 2) and s2 = n_of_decimal (nth fields 3) in
+      let v0 = n_of_decimal (nth fields 4) in
+      let sched = List.init (String.length (nth fields 5)) (fun i -> (nth fields 5).[i] = '1') in
+      let ((r, p1), p2) = run2 ul s1 s2 sched [ (RStack, v0) ] in
+      Printf.sprintf "stack=%s p1failed=%d p2failed=%d"
+        (match ref_get r RStack with Some v -> string_of_int (int_of_n v) | None -> "-")
+        (if p1.pr_failed then 1 else 0) (if p2.pr_failed then 1 else 0)
   | "gitok" -> if git_component_ok (str_of_hex (nth fields 1)) then "true" else "false"
   | "pname" -> (
       match patch_name_p (str_of_hex (nth fields 1)) with
